@@ -413,3 +413,37 @@ class Audit:
                               'panic-capable construct (%s) with no recognised guard and no invariant on file: %s'
                               % (kind, ', '.join(show(o)[:100] for o in ops[:3])))
         return fns, n
+
+
+def param_pos(f, e):
+    """argument position (1-based MIR local) of the parameter an expression is rooted at"""
+    p = access_path(e) or show(e)
+    root = p.split('.')[0].split('<')[0].split('[')[0]
+    m = re.match(r'arg(\d+)$', root)
+    if m:
+        return int(m.group(1))
+    for v in f.raw['vars']:
+        if v.get('n') == root and 'arg' in v:
+            return v['arg']
+    return None
+
+
+def cmp_orientation(F, closure_path, field):
+    """for a comparator closure |x, y| ..cmp..: True = ascending in `.field` of its parameters,
+    False = descending, None = not recognised"""
+    cf = F.fn(closure_path)
+    for b2 in mirq.real_calls(cf):
+        x = cf.expr_call(b2)
+        if x[4].get('name') in ('cmp', 'partial_cmp') and len(x[2]) == 2:
+            a, b = x[2]
+            sa, sb = show(a), show(b)
+            if not (sa.endswith('.' + field) and sb.endswith('.' + field)):
+                return None
+            pa, pb = param_pos(cf, a), param_pos(cf, b)
+            if pa is None or pb is None or pa == pb:
+                return None
+            # reversed afterwards?
+            rev = any(cf.expr_call(b3)[4].get('name') == 'reverse' for b3 in mirq.real_calls(cf))
+            asc = pa < pb
+            return (not asc) if rev else asc
+    return None
